@@ -697,8 +697,18 @@ func (e *Env) havocAllBut(st *State, preserved []types.Type) {
 			n, srt := e.locName(p, l)
 			keep[n] = e.heapGet(st, n, srt)
 		}
+		// values of a preserved struct type stored in slices are preserved as well
+		if _, isStruct := t.Underlying().(*types.Struct); isStruct {
+			names, sorts, _ := e.elemArrays(t)
+			for i, n := range names {
+				keep[n] = e.heapGet(st, n, sorts[i])
+			}
+		}
 	}
 	for n := range e.heapSorts {
+		if strings.HasPrefix(n, "V!") {
+			keep[n] = e.heapGet(st, n, e.heapSorts[n])
+		}
 		// ghost traces, and cells of non-struct type (local variables whose address is taken,
 		// package-level variables): unknown code cannot reach the former and is assumed not to
 		// reassign the latter
